@@ -163,6 +163,51 @@ def minimise(binary, work, registry, ops, tail, saves, budget=10):
     return ops, tail, saves
 
 
+def model_correspondence(ctx, model, sc, res, gens, stats):
+    """drive the extracted SaveLoad model with micro-ops synthesised from the observed per-op changes (dirty probe
+    instance) and compare status words/tip, dirty sets and load results. -> list of texts of genuine disagreements"""
+    lines, exp = S.model_script_for_probe(sc, res, gens)
+    if not lines:
+        return []
+    p = os.path.join(ctx.work, "model_c10.txt")
+    with open(p, "w") as f:
+        f.write("\n".join(lines) + "\n")
+    rc, mres, _, merr = vlib.run_lines([model], p, timeout=900)
+    if rc != 0:
+        ctx.broken.append("model-runner rc=%d %s" % (rc, merr[-200:]))
+    bad = []
+    desynced = set()
+    for (i, kind, tb, pos, w, want) in exp:
+        if tb in desynced:
+            continue
+        got = mres.get(i)
+        if kind == "mop":
+            if got != "ok":
+                desynced.add(tb)
+                stats["corr_histories_desynced"] += 1
+                stats["corr_desync:mop " + str(got)[:20]] += 1
+        elif kind == "state":
+            stats["corr_states_compared"] += 1
+            if got != want:
+                desynced.add(tb)
+                stats["corr_histories_desynced"] += 1
+                if len(ctx.cov["samples"]) < 6:
+                    ctx.sample({"desync_after_op": list(w), "model": str(got)[:300], "impl": want[:300]})
+        elif kind == "dirty":
+            stats["corr_dirty_sets_compared"] += 1
+            md = set() if got in (None, "-") else {int(x) for x in got.split(",") if x}
+            if not md <= set(want):
+                bad.append("corr:Store.SaveLoadDefs.step dirty set: model marks %s, isDirty() only %s after op %s (pos %d)"
+                           % (sorted(md - set(want)), want, list(w), pos))
+                desynced.add(tb)
+        elif kind == "load":
+            stats["corr_loads_compared"] += 1
+            if got != want:
+                bad.append("corr:Store.SaveLoadDefs.load model=%s impl=%s after op %s (pos %d)" % (str(got)[:300], want[:300], list(w), pos))
+                desynced.add(tb)
+    return bad
+
+
 def corpus_cases():
     d = os.path.join(vlib.VERIF, "corpus", "C10")
     out = []
@@ -200,6 +245,9 @@ def run(ctx):
         ctx.broken.append("harness-build: " + hlog[-300:])
         return
     binary = hs["h_store"]
+    okm, model, mlog = vlib.build_model("Store")
+    if not okm:
+        ctx.broken.append("model-build: " + mlog[-300:])
     stats = Counter()
     t0 = time.time()
 
@@ -237,6 +285,7 @@ def run(ctx):
         # several histories per process (each `begin` starts a new registry)
         sc = S.Script()
         cases = {}
+        gens = {}
         for _ in range(count):
             hist_no += 1
             r = ctx.rng.fork()
@@ -247,6 +296,7 @@ def run(ctx):
             S.emit_registry(sc, g)
             # direct dirty oracle on this history (save after every op)
             S.emit_dirty_probe(sc, ops + tail, (hist_no, "probe"))
+            gens[(hist_no, "probe")] = g
             cases[(hist_no, "probe")] = (list(g.lines), ops, tail, list(range(1, len(ops) + len(tail) + 1)))
             for pi, p in enumerate(pl):
                 S.emit_placement(sc, ops, tail, p, (hist_no, pi))
@@ -264,6 +314,13 @@ def run(ctx):
         mism = S.check_registries(sc, res)
         if mism:
             ctx.broken.append("generator/registry out of step: %s" % (mism[:2],))
+        if okm:
+            cbad = model_correspondence(ctx, model, sc, res, gens, stats)
+            if cbad and not fails:
+                # model and implementation disagree and no direct oracle failed on these histories:
+                # name the correspondence (outcome rule 3)
+                for t in cbad[:3]:
+                    ctx.broken.append(t[:700])
         if rc != 0:
             ctx.broken.append("runner: h_store rc=%d %s" % (rc, err[-300:]))
         for tagbase, what, detail in fails:
